@@ -12,6 +12,7 @@ import (
 	"github.com/cloudwego/gopkg/bufiox"
 	"github.com/cloudwego/gopkg/protocol/ttheader"
 
+	"verif/gen"
 	"verif/mc"
 	"verif/ref"
 )
@@ -497,6 +498,13 @@ func c06Run(c *mc.Ctx) {
 	vals := []string{"", "v", "ab", "abc", string(nonUTF8S), c06LongVal(255), c06LongVal(256)}
 	strMaps := subsetsUpTo([]string{"", "a", "ab", ttheader.GDPRToken, c06LongVal(300)}, vals, maxE)
 	intMaps := subsetsUpTo([]uint16{0, 1, ttheader.FrameType, 0xffff}, vals, maxE)
+	// different strings of equal length that collide under widely used 32-bit hashes, as keys and values of one header
+	for pi, pr := range gen.CollisionPairs() {
+		strMaps = append(strMaps, map[string]string{pr[0]: pr[1], pr[1]: pr[0]})
+		if pi < 2 {
+			intMaps = append(intMaps, map[uint16]string{1: pr[0], 2: pr[1], 3: pr[0]})
+		}
+	}
 	envs := []EnvCfg{{}, {Chunk: 1}, {Chunk: 7, ErrWithLast: true, ZeroReads: 1}, {Chunk: 4096}}
 	if th {
 		envs = c02Envs(true)
